@@ -21,6 +21,14 @@ func govcField(v reflect.Value, name string) reflect.Value {
 	return reflect.NewAt(f.Type(), unsafe.Pointer(f.UnsafeAddr())).Elem()
 }
 
+// govcExported makes an unexported field readable (and usable with Interface()).
+func govcExported(f reflect.Value) reflect.Value {
+	if f.CanInterface() || !f.CanAddr() {
+		return f
+	}
+	return reflect.NewAt(f.Type(), unsafe.Pointer(f.UnsafeAddr())).Elem()
+}
+
 func govcDeref(v reflect.Value) reflect.Value {
 	for v.Kind() == reflect.Interface || v.Kind() == reflect.Ptr {
 		if v.IsNil() {
@@ -167,6 +175,51 @@ func TestGovcConformance(t *testing.T) {
 		if !govcField(b, "stub").Bool() {
 			t.Errorf("GOVC-CONF composition: template.Builder.stub is false for stub=true")
 		}
+	}
+	// C12 / C10: every line the verbose runner prints for a step fits the 60-column row whatever the payload is: a step's
+	// display name - plus " END", a three-rune mark and one level of indentation - must stay below 60 runes, also for
+	// very long output file names and patterns (Printer.PrintAlignedLn panics on a negative padding)
+	{
+		cases++
+		long := strings.Repeat("a-very-long-name-", 20) + ".go"
+		r := buildRunner(runnerPayload{writer: io.Discard, version: "1.2.3", buildInfo: strings.Repeat("info ", 40), paramsExistActive: true, servicesExistActive: true,
+			inputPatterns: []string{strings.Repeat("pattern/", 40) + "*.yaml"}, outputFile: long, stub: false})
+		var walk func(v reflect.Value, depth int)
+		seen := map[uintptr]bool{}
+		walk = func(v reflect.Value, depth int) {
+			if depth > 6 || !v.IsValid() {
+				return
+			}
+			switch v.Kind() {
+			case reflect.Interface, reflect.Ptr:
+				if v.IsNil() {
+					return
+				}
+				if v.Kind() == reflect.Ptr {
+					if seen[v.Pointer()] {
+						return
+					}
+					seen[v.Pointer()] = true
+				}
+				if v.CanInterface() {
+					if n, ok := v.Interface().(interface{ Name() string }); ok {
+						if l := len([]rune(n.Name())); l+4+3+4 > 60 {
+							t.Errorf("GOVC-CONF composition: the display name of %T has %d runes: its END line does not fit the 60-column row", v.Interface(), l)
+						}
+					}
+				}
+				walk(v.Elem(), depth+1)
+			case reflect.Struct:
+				for i := 0; i < v.NumField(); i++ {
+					walk(govcExported(v.Field(i)), depth+1)
+				}
+			case reflect.Slice:
+				for i := 0; i < v.Len(); i++ {
+					walk(v.Index(i), depth+1)
+				}
+			}
+		}
+		walk(reflect.ValueOf(r), 0)
 	}
 	// C18: the version gate is fed the build's version (not the build info): the version validator sits behind a
 	// method value, so it is evaluated by running the real runner on a two-line configuration
